@@ -91,7 +91,7 @@ def _tx_events(args):
                 ws, we = rnd.randrange(0, blocks[0][0] + 1), rnd.randrange(blocks[-1][1], G + 1)
             B = None
             try:
-                B = mk_tx(blocks, st, cds, None, frames=frames, parent=seq_chunk_to_parent(root[ws:we], "chr", ws, we))
+                B = mk_tx(blocks, st, cds, None, frames=frames, parent=E.chunk_parent(root, ws, we, minus=rnd.random() < 0.3))
                 if rnd.random() < 0.3:
                     E.warm(B)
             except Exception:
